@@ -1698,10 +1698,17 @@ IW_INLINE void _jbl_node_reset_data(struct jbl_node *target) {
   target->type = t;
 }
 
+IW_INLINE void _jbl_reparent_children(struct jbl_node *n) { // the children taken over from another node belong to `n` now
+  for (struct jbl_node *c = n->child; c; c = c->next) {
+    c->parent = n;
+  }
+}
+
 IW_INLINE void _jbl_copy_node_data(struct jbl_node *target, struct jbl_node *value) {
   memcpy(((uint8_t*) target) + offsetof(struct jbl_node, child),
          ((uint8_t*) value) + offsetof(struct jbl_node, child),
          sizeof(struct jbl_node) - offsetof(struct jbl_node, child));
+  _jbl_reparent_children(target);
 }
 
 iwrc _jbl_increment_node_data(struct jbl_node *target, struct jbl_node *value) {
@@ -2587,6 +2594,7 @@ static iwrc _jbl_target_apply_patch(struct jbl_node *target, const struct jbl_pa
         return JBL_ERROR_PATCH_NOVALUE;
       }
       memmove(target, value, sizeof(*value));
+      _jbl_reparent_children(target);
     }
   } else { // Not a root
     if ((op == JBP_REMOVE) || (op == JBP_REPLACE)) {
@@ -3232,6 +3240,7 @@ iwrc jbn_merge_patch_from_json(struct jbl_node *root, const char *patchjson, str
   RCGO(rc, finish);
   if (res != root) {
     memcpy(root, res, sizeof(*root)); // -V575
+    _jbl_reparent_children(root);
   }
 
 finish:
